@@ -63,5 +63,6 @@ PROPS["C10"] = {
         # the functions in isolation
         {"pkg": "aggregator", "hdir": "aggregator", "opts": _C10_FUNC_OPTS,
          "specs": [_c10_func(f) for f in _C10_FUNS if f != "stdev"] + [_c10_func("stdev", extra="1"), _c10_func("percentiles", extra="1")]},
+        {"pkg": "aggregator", "hdir": "aggregator", "specs": [spec("C10/output-name", "VerifC10OutputName")]},
     ],
 }
